@@ -120,6 +120,18 @@ fn c11_unitset_scale_to_unit_compound() {
     assert!(sq.scale_to_unit(&Unit::Px).is_none(), "px^2 does not convert to px");
     assert!(UnitSet::scalar().scale_to_unit(&Unit::Px) == Unit::None.scale_to(&Unit::Px));
 }
+/// C11: a plain unit never converts to a power of a unit (1in is not a
+/// number of px^2, nor of px^-1): `scale_to` takes the single-unit shortcut
+/// only when the target's exponent is 1.
+#[kani::proof]
+#[kani::unwind(6)]
+fn c11_unitset_scale_to_power_of_unit_is_none() {
+    let a = UnitSet::from(Unit::In);
+    let sq = UnitSet { units: vec![(Unit::Px, 2)] };
+    assert!(a.scale_to(&sq).is_none(), "in does not convert to px^2");
+    let inv = UnitSet { units: vec![(Unit::Px, -1)] };
+    assert!(a.scale_to(&inv).is_none(), "in does not convert to px^-1");
+}
 /// C11: `is_none` is true exactly for the unitless set.
 #[kani::proof]
 #[kani::unwind(4)]
